@@ -41,6 +41,7 @@ type FuncContract struct {
 	Mutates  []string
 	Borrows  []string
 	Inplace  []string
+	FullProps    []string // properties named by a plain `property` line (callees are pulled into the cone)
 	ShallowProps []string // properties for which only this function (not its callees) is in the cone
 	Props    []string // properties whose ownership/frame/effects obligations this function carries
 	Preserves bool // `preserves-existing`: no field of an object that existed before the call is changed (only fresh objects are written)
@@ -271,6 +272,7 @@ func parseContractFile(path, pkgDir string) ([]*FuncContract, error) {
 				}
 			} else {
 				cur.Props = append(cur.Props, splitNames(rest)...)
+				cur.FullProps = append(cur.FullProps, splitNames(rest)...)
 			}
 		case "inplace":
 			cur.Inplace = append(cur.Inplace, splitNames(rest)...)
